@@ -137,7 +137,7 @@ structure C04.AgreeExcept (D : Nat → String → Prop) (s t : St) : Prop where
     fs.depth = ft.depth ∧ fs.cacheKey = ft.cacheKey ∧ fs.function = ft.function ∧
     ∀ n, ¬ D i n → lookupStore fs.store n = lookupStore ft.store n
   /-- a binding of `D` is one the purity test does not trust: in `t` it is bound, to a value that is neither a
-  function nor a reference, under a name that is not all-caps (since repo fix 066677f function values of NON-root frames
+  function nor a reference, under a name that is not all-caps (since repo fix 103fa2c function values of NON-root frames
   are untrusted as well; they are not admitted into `D` here, see `FrQ.dirty`) -/
   dirty : ∀ i n, D i n → isConstant n = false ∧
     ∃ ft v, t.frames[i]? = some ft ∧ lookupStore ft.store n = some v ∧ notRef v = true ∧ isFuncObj v = false
